@@ -1,14 +1,14 @@
 (** Executable comparison and oracle used by the C07 correspondence check (kernel evaluation).
 
     A live-rig row is one connection: the fault applied to the candidate websocket, how many
-    messages each side sent (ids 0,1,2,... in Send order; [burst] = the ids sent by the burst goroutine), the ids
+    messages each side sent (ids 0,1,2,... in Send order; [streams] = the ids sent by each additional sender goroutine), the ids
     delivered to each side in callback order, and the final transport / close flags. *)
 From SioV Require Import Base.GoSem Eio.Upgrade.
 
 (** fault codes: 0 none; 1 refuse\@tcp; 2 refuse\@http; 3 stall\@handshake; 4 stall\@ping;
     5 stall\@pong; 6 stall\@upgrade; 7 cut\@handshake; 8 cut\@ping; 9 cut\@pong; 10 cut\@upgrade *)
 Definition ucase :=
-  (nat * (nat * list N) * (nat * list N) * list N * list N * (bool * bool * bool * bool))%type.
+  (nat * (nat * list (list N)) * (nat * list (list N)) * list N * list N * (bool * bool * bool * bool))%type.
 
 Definition probe_prefix (f : nat) : list label :=
   match f with
@@ -64,8 +64,11 @@ Definition two_runs (l : list N) : bool :=
   existsb (fun k => increasing (filter (fun x => N.ltb x k) l) && increasing (filter (fun x => negb (N.ltb x k)) l))
           (0%N :: map N.succ l).
 
-Definition stream_split (burst recv : list N) : list N * list N :=
-  (filter (fun x => negb (memb x burst)) recv, filter (fun x => memb x burst) recv).
+(** per sender goroutine: the main stream is what belongs to none of the additional ones *)
+Definition in_any (x : N) (ss : list (list N)) : bool := existsb (memb x) ss.
+Definition streams_ordered (ss : list (list N)) (recv : list N) : bool :=
+  increasing (filter (fun x => negb (in_any x ss)) recv)
+  && forallb (fun s => increasing (filter (fun x => memb x s) recv)) ss.
 
 (** The property evaluated on the implementation's observation alone. *)
 Definition oracle (c : ucase) : bool :=
@@ -79,8 +82,8 @@ Definition oracle (c : ucase) : bool :=
   (* per-transport order, per sender goroutine *)
   (* (repaired client: long-polling has stopped before the swap, so one sender's messages arrive
      in order across the swap, also server -> client) *)
-  && (let '(a, b) := stream_split sburst crecv in increasing a && increasing b)
-  && (let '(a, b) := stream_split cburst srecv in increasing a && increasing b).
+  && streams_ordered sburst crecv
+  && streams_ordered cburst srecv.
 
 (** Correspondence: the observed outcome is the one the model predicts for this fault (the
     theorems of Props/C07.v say the outcome does not depend on the schedule unless the fault falls
